@@ -762,7 +762,11 @@ def bpki_stage1(ctx, bag, st):
     sl = [17, 25, 33]
     b = ctx.seed
     plan = [("pk", kl[b % 4], 32767, True), ("pk", kl[(b + 1) % 4], 32768, True), ("sh", sl[b % 3], 32767, True), ("sh", sl[(b + 1) % 3], 32768, True),
-            ("pk", kl[(b + 2) % 4], 65535, not quick), ("pk", kl[(b + 3) % 4], 65536, not quick), ("sh", sl[(b + 2) % 3], 65536, not quick)]
+            ("pk", kl[(b + 2) % 4], 65535, not quick), ("pk", kl[(b + 3) % 4], 65536, not quick), ("sh", sl[(b + 2) % 3], 65536, not quick),
+            # values that are not a boundary themselves: every octet of iterCount non-zero / distinct (a truncated or byte-swapped
+            # count on the way to PBKDF2 in Unwrap shows up as ERR_BAD_KEYTOKEN for the right password); implementation only
+            ("pk", kl[b % 4], 65537, False), ("sh", sl[b % 3], rng.randrange(66000, 200000) | 0x010101, False),
+            ("pk", kl[(b + 1) % 4], 0x012345 + rng.randrange(16), False)]
     if not quick:
         plan += [("pk", n, it, True) for n in kl for it in (10001, 32768)] + [("sh", n, it, True) for n in sl for it in (10001, 32767)]
         # 8388608 (iterCount grows to 4 content octets) costs ~45 s of PBKDF2 per call on the ASan build: one container per run,
